@@ -17,6 +17,7 @@
 #define BO(p) VOFF((p), buf)
 
 void harness(void) {
+    GHOST_INDICES_ARBITRARY();
     polyseed_str buf;
     polyseed_phrase words;
     const char* sentinel = (const char*)&g_j;   /* marks "never written" */
